@@ -7,9 +7,12 @@ EXTENDS Names, Json
 CONSTANTS MaxG, MaxS
 
 Values == (1..NP) \cup {1001, 1002, 1003}
-VARIABLES d, n
-vars == <<d, n>>
-Init == d = << << <<>> >> >> /\ n = 0
+VARIABLES d, n, el
+vars == <<d, n, el>>
+(* el: the runtime cut every aggregate short ("{v, ...}").  The marker carries no value (Flat
+   ignores it), so the labelling - and every invariant below - is the same with and without it;
+   the replay prints the dump accordingly and must find the same names.                        *)
+Init == d = << << <<>> >> >> /\ n = 0 /\ el \in BOOLEAN
 
 Sv(v) == [k |-> "v", v |-> v, f |-> <<>>]
 Sa(f) == [k |-> "a", v |-> 0, f |-> f]
@@ -19,18 +22,18 @@ SetLastF(f) == [d EXCEPT ![Len(d)] = [LastG EXCEPT ![Len(LastG)] = f]]
 
 AddValue == /\ n < MaxS
             /\ \E v \in Values : d' = SetLastF(Append(LastF, Sv(v)))
-            /\ n' = n + 1
+            /\ n' = n + 1 /\ UNCHANGED el
 (* a value inside an aggregate: either open a new aggregate or extend the last one *)
 AddNested == /\ n < MaxS
              /\ \E v \in Values :
                   \/ d' = SetLastF(Append(LastF, Sa(<<Sv(v)>>)))
                   \/ /\ LastF # <<>> /\ LastF[Len(LastF)].k = "a"
                      /\ d' = SetLastF([LastF EXCEPT ![Len(LastF)] = Sa(Append(@.f, Sv(v)))])
-             /\ n' = n + 1
+             /\ n' = n + 1 /\ UNCHANGED el
 NewFrame == /\ LastF # <<>> /\ Len(LastG) < 2
-            /\ d' = [d EXCEPT ![Len(d)] = Append(LastG, <<>>)] /\ UNCHANGED n
+            /\ d' = [d EXCEPT ![Len(d)] = Append(LastG, <<>>)] /\ UNCHANGED <<n, el>>
 NewGor == /\ LastF # <<>> /\ Len(d) < MaxG
-          /\ d' = Append(d, << <<>> >>) /\ UNCHANGED n
+          /\ d' = Append(d, << <<>> >>) /\ UNCHANGED <<n, el>>
 Next == AddValue \/ AddNested \/ NewFrame \/ NewGor
 Spec == Init /\ [][Next]_vars
 
@@ -49,5 +52,5 @@ Ascending == \A u, v \in Ptrs(d) :
    /\ (u \in GroupA(d) /\ v \in GroupB(d) => Label(d, u) < Label(d, v))
 NonPointersUnnamed == \A k \in 1..Len(A) : ~IsPtr(A[k]) => NamesOf(d)[k] = 0
 
-Emit == (n > 0 /\ LastF # <<>>) => PrintT("CASE " \o ToJson([d |-> d, names |-> NamesOf(d)]))
+Emit == (n > 0 /\ LastF # <<>>) => PrintT("CASE " \o ToJson([d |-> d, names |-> NamesOf(d), el |-> el]))
 =============================================================================
